@@ -11,7 +11,7 @@ META = {
                   'enspara.tpt.tpt.reactive_populations', 'enspara.tpt.core.committors'],
     'bounds': {'quick': 'reversible T with its stationary populations (given), n<=3 dense, every disjoint source/sink set pair; '
                         'n=4 on a nearest-neighbour chain pattern',
-               'thorough': 'n=4 dense and sparse patterns (reported inconclusive where z3 gives up)'},
+               'thorough': 'n=4 dense, chain, ring and star patterns with one- and two-state source/sink sets; n=5 chains (reported inconclusive where z3 gives up)'},
     'stubs': ['spsolve on a dense operand = fresh x with A.x = b'],
     'assumptions': ['exact real arithmetic (QF_NRA)', 'detailed balance pi_i T_ij = pi_j T_ji, pi>0, sum pi = 1, T row-stochastic'],
     'outside': ['sparse containers', 'non-reversible chains for the conservation clauses (the code uses q- = 1 - q+)'],
@@ -38,4 +38,12 @@ def jobs(tier):
         add('n=4,ring,[0]->[2]', n=4, sources=[0], sinks=[2], zero_pattern=ring)
         add('n=4,dense,[0]->[3]', n=4, sources=[0], sinks=[3])
         add('n=4,dense,[0,1]->[3]', n=4, sources=[0, 1], sinks=[3])
+        add('n=4,dense,[0]->[2,3]', n=4, sources=[0], sinks=[2, 3])
+        add('n=4,ring,[0,1]->[3]', n=4, sources=[0, 1], sinks=[3], zero_pattern=ring)
+        add('n=4,chain,[0]->[2]', n=4, sources=[0], sinks=[2], zero_pattern=chain)
+        star = [[(i == j or i == 0 or j == 0) for j in range(4)] for i in range(4)]
+        add('n=4,star,[1]->[2]', n=4, sources=[1], sinks=[2], zero_pattern=star)
+        chain5 = [[abs(i - j) <= 1 for j in range(5)] for i in range(5)]
+        add('n=5,chain,[0]->[4]', n=5, sources=[0], sinks=[4], zero_pattern=chain5)
+        add('n=5,chain,[1]->[3]', n=5, sources=[1], sinks=[3], zero_pattern=chain5)
     return J
